@@ -26,6 +26,9 @@ var c12Queries = []string{
 	"SELECT a, (SELECT ASYNC.vid(p) AS w FROM items) AS s FROM t WHERE a > ?",
 	"WITH c AS (SELECT a, ASYNC.vid(a) AS v FROM t), d AS (SELECT * FROM c WHERE a > ?) SELECT * FROM d",
 	"SELECT a, AWAIT(ASYNC.vid(a + 1)) AS v, AWAIT(a) AS w FROM t WHERE a > ?",
+	// INTO joins (nested loop and hash)
+	"SELECT * FROM t x JOIN t y ON x.a <= y.a INTO pair WHERE x.a > ?",
+	"SELECT * FROM t x LEFT JOIN t y ON x.a = y.a INTO pair WHERE x.a > ?",
 	// `::` selectors next to the plain selectors their stages spell
 	"SELECT q AS w, p AS u, a, `items::[0]::q` AS v, `items[0]::p` AS z FROM t WHERE a > ?",
 	// chains of asynchronous slots, with a NULL at the end
@@ -88,7 +91,19 @@ func H_C12_plain() {
 	got2, err2 := runQueryQuiet(doc2, verif.SQL(sql, holes...), WithVars(map[string]any{}))
 	verif.Assert(err2 == nil, "second-run-ok")
 	if err2 == nil && verif.Plain(got) == "" {
-		if qi == 8 || qi == 9 {
+		// grouping and joins promise the multiset only (unless ORDER BY fixes the order)
+		unordered := false
+		for i := 0; i+8 <= len(sql); i++ {
+			if sql[i:i+5] == "JOIN " || sql[i:i+8] == "GROUP BY" {
+				unordered = true
+			}
+		}
+		for i := 0; i+8 <= len(sql); i++ {
+			if sql[i:i+8] == "ORDER BY" {
+				unordered = false
+			}
+		}
+		if unordered {
 			verif.Assert(eqAnyOrder(got, got2), "same-multiset")
 		} else {
 			verif.Assert(verif.Eq(got, got2), "same-sequence")
